@@ -547,4 +547,34 @@ theorem hb_hash_km2 (cfg : Cfg) (d : ℕ) (c : ZocClass) (X Y : ℝ) (hz : Layer
   rw [this, if_neg (by unfold hbI at hI; omega)]
   rfl
 
+/-! ## examples -/
+
+/-- depth 1, the point `(1/2, 1/4)` of base cell 4: regular case, the hypotheses of `hash_back_plane` hold -/
+example : ∃ hash dx dy, hashBack (α := ℝ) {} 1 (1 / 2, 1 / 4) = some (hash, dx, dy) ∧ 0 ≤ dx ∧ dx < 1 ∧ 0 ≤ dy ∧ dy < 1 := by
+  have hin : InDiamond (baseX 4) (baseY 4) 1 (1 / 2) (1 / 4) := by
+    unfold InDiamond baseX baseY; norm_num [abs_of_nonneg]
+  obtain ⟨hdom, h3, h5, _, _⟩ := inBase_regular 1 4 (1 / 2) (1 / 4) (by decide) (by norm_num) (by norm_num) hin
+    (by unfold baseX baseY; norm_num) (by unfold baseX baseY; norm_num)
+  obtain ⟨hv, _, _, _, a, b, c, e, _⟩ := hash_back_plane {} 1 .small (1 / 2) (1 / 4) (by decide) (by decide) hdom h3 h5
+  exact ⟨_, _, _, hv, a, b, c, e⟩
+
+/-- the point `(1/2, 3/2)` (north-west border of base cell 0, on the meridian 0) reaches the branch `k = −1` -/
+example : hbI 1 (1 / 2) (3 / 2) + hbJ 1 (1 / 2) (3 / 2) = 6 := by
+  have hin : InDiamond (baseX 0) (baseY 0) 1 (1 / 2) (3 / 2) := by
+    unfold InDiamond baseX baseY; norm_num [abs_of_nonneg, abs_of_nonpos]
+  obtain ⟨_, eI, eJ⟩ := inBase_branch 1 0 (1 / 2) (3 / 2) (by decide) (by norm_num) (by norm_num) hin
+  rw [eI, eJ]
+  unfold baseX baseY
+  norm_num [sqOf]
+
+#print axioms hashWithDxDy_eq
+#print axioms hash_back_plane
+#print axioms hash_back_sph_coo
+#print axioms inBase_branch
+#print axioms inBase4_branch
+#print axioms inBase_regular
+#print axioms inBase4_regular
+#print axioms hb_hash_km1
+#print axioms hb_hash_km2
+
 end Hpx.CellReal
